@@ -27,7 +27,7 @@ LEVEL_TEXT = ('for window_score and template_input, every configuration (initial
               'with an exception injected at exactly the k-th call made from the module under test (Python and C calls, environment look-ups included); os.environ is compared as a whole before/after every run')
 LEVEL_NOTE = ('one injected fault per run (bound = 1 deviation) at call granularity; heavy collaborators (readspec, solvers, plotting, scoring) are replaced by light stubs so the fault-free run completes, '
               'the functions under test run unmodified; writes to os.environ themselves are assumed not to fail; trusted: sys.setprofile event delivery')
-RULE = ('configurations = full product of initial environment states x variants; per configuration k = 0 (no fault), natural failures, and k = 1..N for every call event whose caller frame '
+RULE = ('two-call histories on one parameter file (first call succeeds or fails naturally, environment changed in between, second call swept with every fault point); configurations = full product of initial environment states x variants; per configuration k = 0 (no fault), natural failures, and k = 1..N for every call event whose caller frame '
         'belongs to the module under test. Non-trivial: a run that ends by an exception while the environment at the moment of the fault differs from the initial one (something had to be restored). '
         'Distinct: (entry point, configuration, k, exception class).')
 ASSUMPTIONS = ['assignments/deletions on os.environ are not themselves fault points (if restoring cannot be done, nothing can restore); pure str/list/dict methods and len/isinstance/... are not fault points; calls between functions of the module under test are not fault points themselves (their outgoing calls are)',
@@ -200,20 +200,23 @@ def ti_write_par(path, cfg):
         f.write('\n'.join(lines) + '\n')
 
 
-def ti_setup(d, cfg):
+def ti_setup(d, cfg, keep_files=False):
     wd = os.path.join(d, 'work')
-    if os.path.exists(wd):
-        shutil.rmtree(wd)
-    os.makedirs(wd)
+    if not keep_files:
+        if os.path.exists(wd):
+            shutil.rmtree(wd)
+        os.makedirs(wd)
     os.chdir(wd)
     par = os.path.join(wd, 'input.par')
-    if cfg['defect'] != 'missingfile':
+    if cfg['defect'] != 'missingfile' and not keep_files:
         ti_write_par(par, cfg)
     dump = os.path.join(wd, 'dump.pickle')
     loglam = np.log10(3600.) + 1e-4 * np.arange(NPIX)
     flux = np.ones((NSPEC, NPIX)) + 0.01 * np.arange(NPIX)[None, :]
     ivar = np.ones((NSPEC, NPIX))
-    if cfg['dump'] == 'present':
+    if keep_files and cfg['dump'] == 'absent' and os.path.exists(dump):
+        os.remove(dump)
+    if cfg['dump'] == 'present' and not os.path.exists(dump):
         import pickle
         with open(dump, 'wb') as f:
             pickle.dump({'newflux': flux, 'newivar': ivar, 'newloglam': loglam}, f)
@@ -309,6 +312,15 @@ def ti_configs(tier):
         for nat in ('readspec', 'missingobj', 'preprocess', 'solver', 'plot'):
             out.append({'ep': 'template_input', 'run2d': run2d, 'run1d': run1d, 'object': 'gal', 'method': 'hmf' if nat == 'solver' else 'pca',
                         'dump': 'absent', 'flux': False, 'defect': 'none', 'natural': nat})
+    # two-call histories (same parameter file, environment changed in between)
+    states = [(True, True), (False, False), (True, False), (False, True)]
+    for a in states:
+        for b in states:
+            if not T and (a == b or (a[0] != a[1]) != (b[0] != b[1]) or a > b):
+                continue
+            for nat in ((None, 'readspec', 'solver') if T else (None, 'readspec')):
+                out.append({'ep': 'template_input', 'run2d': b[0], 'run1d': b[1], 'object': 'gal', 'method': 'pca', 'dump': 'absent',
+                            'flux': False, 'defect': 'none', 'first': {'run2d': a[0], 'run1d': a[1], 'natural': nat}})
     return out
 
 
@@ -340,7 +352,19 @@ def one_run(cfg, k, excname, d):
     env_outer = dict(os.environ)
     cwd = os.getcwd()
     try:
-        fn = ws_setup(d, cfg) if cfg['ep'] == 'window_score' else ti_setup(d, cfg)
+        if cfg.get('first'):
+            # two-call history in one process on the same, untouched parameter file: the first call (no injected fault)
+            # runs from its own initial environment, then the environment is set to this configuration's initial state
+            first = dict(cfg, **cfg['first'])
+            first.pop('first')
+            f1 = ti_setup(d, first)
+            try:
+                f1()
+            except Exception:
+                pass
+            fn = ti_setup(d, cfg, keep_files=True)
+        else:
+            fn = ws_setup(d, cfg) if cfg['ep'] == 'window_score' else ti_setup(d, cfg)
         env0 = dict(os.environ)
         res, inj = run_with_fault(fn, files_for(cfg), k, EXC[excname], env0)
         env1 = dict(os.environ)
@@ -378,7 +402,7 @@ def run_task(task):
             _warm.add(cfg['ep'])
         res0, inj0, bad0 = one_run(cfg, None, 'InjectedFault', d)
         n = inj0.n
-        ckey = tuple(sorted(cfg.items()))
+        ckey = repr(sorted(cfg.items()))
         acc.case((ckey, 0, ''), res0 != 'returned', 'k0:%s:%s' % (cfg['ep'], res0), sample={'cfg': cfg, 'k': 0, 'exc': 'InjectedFault', 'calls': n})
         for sig, msg in bad0:
             acc.violation(sig, {'cfg': cfg, 'k': 0, 'exc': 'InjectedFault'}, msg)
